@@ -514,13 +514,13 @@ def rule_show_config_region(prog, fixture=False):
                    "calls on objects declared outside the region is a const method (and has no mutable members or "
                    "const_cast to write through)", floor=0 if fixture else 1)
     for fn in prog.functions.values():
-        if fn.name != "main" and not fixture:
+        if fn.relfile() != "dfs/main.cc" and not fixture:
             continue
         for n in fn.walk():
             if n.get("k") != "IfStmt":
                 continue
             cond = strip_all(n["c"][n["parts"]["cond"]])
-            if cond is None or cond.get("k") != "DeclRefExpr" or cond.get("n") not in ("show_config",):
+            if cond is None or cond.get("k") not in ("DeclRefExpr", "MemberExpr") or cond.get("n") not in ("show_config",):
                 continue
             then = n["c"][n["parts"]["then"]]
             local_ids = {x["d"] for x in walk(then) if x.get("k") == "VarDecl"}
